@@ -698,10 +698,20 @@ def probe_cmds(rng, ntasks, full=True):
 # ----------------------------------------------------------------------------------------------
 # evaluation of one case: K + P
 
+def _norm(d):
+    """a definition as doit sees it: `getargs` from task x adds the implicit uptodate item result_dep(x)
+    (Task._init_getargs), exactly as statuslib.model_def hands it to the model"""
+    if d.get('getargs') is None:
+        return d
+    d = dict(d)
+    d['uptodate'] = [list(i) for i in d['uptodate']] + [['res', d['getargs']]]
+    return d
+
+
 def closure_deps(defs, ntasks):
     direct = {}
     for t in range(ntasks):
-        d = defs[t] if t in defs else defs[str(t)]
+        d = _norm(defs[t] if t in defs else defs[str(t)])
         dd = set()
         for u in range(ntasks):
             if u == t:
@@ -734,7 +744,7 @@ def check_reasons(pr, t, status, reasons):
     """(P) every printed reason is true of the world at the probe; returns list of false clauses"""
     bad = []
     before = pr['before']
-    d = pr['defs'][t] if t in pr['defs'] else pr['defs'][str(t)]
+    d = _norm(pr['defs'][t] if t in pr['defs'] else pr['defs'][str(t)])
     files = before['files']
     rec = before['db'][t] if isinstance(before['db'], list) and before['db'] and before['db'][0] != 'exc' else None
     if rec is None:
